@@ -234,7 +234,7 @@ type fetchSink struct {
 }
 
 func (f *fetchSink) Send(m *pb.BinaryData) error { f.out = append(f.out, m.CloneVT()); return nil }
-func (f *fetchSink) Context() context.Context     { return f.ctx }
+func (f *fetchSink) Context() context.Context    { return f.ctx }
 
 func IDString(id model.ID) string {
 	return seq.ID{MID: seq.MID(id.MID), RID: seq.RID(id.RID)}.String()
